@@ -302,6 +302,12 @@ def rule_guard(ctx, rep):
         if not HAS_CORE[c]:
             continue
         facts = ctx.configs[c]
+        # the OSC arms of this configuration by evaluation (C02's rule), with the fixed buffer not full and full: a full buffer drops
+        # payload bytes and nothing else — the terminator still closes the last parameter and dispatches
+        from rules import C02
+        r2 = rep.scoped(c)
+        r2.guarded("osc-arms", "anstyle_parse::Parser::<C>::perform_action", lambda facts=facts, r2=r2: C02.rule_osc_arms(facts, r2))
+        r2.guarded("osc-arms", "anstyle_parse::Parser::<C>::perform_action", lambda facts=facts, r2=r2: C02.rule_osc_arms(facts, r2, full_buffer=True))
         n = 0
         for b in facts.bodies("anstyle_parse"):
             if "hir" not in b:
